@@ -511,7 +511,7 @@ func (n *vDNet) SeedTables() {
 			if p.Conn == nil || (wan && !n.U.HasPublicNonRelay(p.Addrs)) {
 				continue
 			}
-			n.PS.AddAddrs(p.ID, p.Addrs, peerstore.PermanentAddrTTL)
+			n.PS.Peerstore.AddAddrs(p.ID, p.Addrs, peerstore.PermanentAddrTTL) // unlogged: the log holds only writes of the code under test
 			n.Seeded[p.ID] = true
 			n.H.Net.AddConn(p.ID, network.DirOutbound, p.Conn, false)
 			rt := n.D.LAN.RoutingTable()
